@@ -7,7 +7,7 @@ import sys
 pid, wt = sys.argv[1], sys.argv[2]
 prop = [json.loads(l) for l in open("/verif/properties.jsonl") if json.loads(l)["id"] == pid][0]
 print("""You are working on the Rust workspace dmntk (a DMN decision-model toolkit: FEEL lexer / LALR parser / evaluator, decimal numbers, temporal types, DMN XML model parser and
-evaluator, HTTP server, recogniser of decision tables drawn as text). Your own scratch git worktree of it is %(wt)s - work ONLY there (never in /repo, never in /verif). There is no
+evaluator, HTTP server, recogniser of decision tables drawn as text). Your own scratch git worktree of it is %(wt)s - work ONLY there (never in /repo; do not read or write anything under /verif). There is no
 network: use `cargo ... --offline` (set CARGO_NET_OFFLINE=true). Important quirk: every workspace member depends on the crates.io 0.0.46 copy of its sibling crates, NOT on the sibling
 directories - a change in feel/ is invisible to feel-evaluator's own tests. A demonstration crate therefore needs a `[patch.crates-io]` section that points every dmntk-* crate it uses
 (transitively) at the worktree directories (dmntk-common -> common, dmntk-feel -> feel, dmntk-feel-number -> feel-number, dmntk-feel-grammar -> feel-grammar, dmntk-feel-parser -> feel-parser,
